@@ -457,7 +457,8 @@ impl World {
                 } else {
                     "?".to_string()
                 };
-                ("panic".to_string(), json!({}), json!({ "panic": msg }))
+                // the arguments could not be resolved against the state: record the symbolic operation itself
+                ("panic".to_string(), json!({ "symbolic": serde_json::to_value(op).unwrap_or(Value::Null) }), json!({ "panic": msg }))
             }
         }
     }
